@@ -91,6 +91,9 @@ def run(chk):
     C03.run_align_and_charge(chk, src)
     C03.run_merge_order(chk, src)
     C03.run_label_freshness(chk, src)
+    chk.rule("mask-and-outer", "sector mask and label merge helpers (abstract runs)", 2)
+    from .mini_specs import qn_mask_and_outer
+    qn_mask_and_outer(chk, src, "mask-and-outer")
     chk.rule("label-co-update", "a decomposition factor stored into a site tensor is accompanied by a store of its label list to the bond labels", 10)
     chk.rule("fresh-labels", "_update_mps / update_2site receive qnbigl, qnbigr computed by _get_big_qn(cidx) / get_qnmat of the same object and sites, "
              "and the mask applied to the local vector comes from the same call", 4)
